@@ -90,6 +90,72 @@ class Iter:
     def __init__(self, prog):
         self.prog = prog
         self.getters = live_getter_methods(prog)
+        self.generators = {}
+        self.find_live_generators()
+
+    def find_live_generators(self):
+        """generator methods that yield from inside a loop over a live list
+        of their receiver (or `yield from` one): iterating their result is
+        iterating that list.  Name -> functions; iterated to a fixpoint so a
+        generator over a generator is seen too."""
+        prog = self.prog
+        cands = []
+        for f in prog.repo.functions.values():
+            if f.cls is None or not f.module.name.startswith("gfapy"):
+                continue
+            if any(isinstance(n, (ast.Yield, ast.YieldFrom))
+                   for n in walk_no_nested(f.node)):
+                cands.append(f)
+        changed = True
+        while changed:
+            changed = False
+            for f in cands:
+                if f in self.generators.get(f.name, ()):
+                    continue
+                fa = FuncAnalysis(prog, f)
+                fa.run()
+                if self.yields_live(fa, f):
+                    self.generators.setdefault(f.name, []).append(f)
+                    changed = True
+
+    def yields_live(self, fa, f):
+        def visit(stmts, live):
+            for n in stmts:
+                for sub in walk_no_nested(n) if not isinstance(
+                        n, (ast.For, ast.While, ast.If, ast.Try, ast.With)) \
+                        else [n]:
+                    if isinstance(sub, ast.YieldFrom) and \
+                            self.receiver_live(fa, f, sub.value):
+                        return True
+                    if isinstance(sub, ast.Yield) and live:
+                        return True
+                if isinstance(n, ast.For):
+                    inner = live or self.receiver_live(fa, f, n.iter)
+                    if visit(n.body, inner) or visit(n.orelse, live):
+                        return True
+                elif isinstance(n, (ast.While, ast.If)):
+                    if any(isinstance(x, ast.Yield) for x in
+                           walk_no_nested(n.test)) and live:
+                        return True
+                    if visit(n.body, live) or visit(n.orelse, live):
+                        return True
+                elif isinstance(n, ast.With):
+                    if visit(n.body, live):
+                        return True
+                elif isinstance(n, ast.Try):
+                    blocks = [n.body, n.orelse, n.finalbody] + \
+                        [h.body for h in n.handlers]
+                    if any(visit(b, live) for b in blocks):
+                        return True
+            return False
+        return visit(f.node.body, False)
+
+    def receiver_live(self, fa, f, node):
+        """is `node` a live list owned by the receiver of method f"""
+        owner = self.live_owner(fa, node)
+        if owner is None:
+            return False
+        return any(r == f.self_name and d == 0 for (r, h, d, k, _) in owner)
 
     # ------------------------------------------------------------------
     def live_owner(self, fa, node, depth=0):
@@ -109,7 +175,7 @@ class Iter:
                 if f.attr == "get" and isinstance(f.value, ast.Attribute) and \
                         f.value.attr == "_refs":
                     return self.val(fa, f.value.value)
-                if f.attr in self.getters:
+                if f.attr in self.getters or f.attr in self.generators:
                     return self.val(fa, f.value)
             return None
         if isinstance(node, ast.Subscript):
